@@ -5,7 +5,7 @@ B="src/pygaps/core/baseisotherm.py"
 E=[]
 def m(name, file, old, new, expect="fire", rule=None, **kw):
     E.append(dict(name=name, file=file, old=old, new=new, expect=expect, **({"rule": rule} if rule else {}), **kw))
-m("hash: sort_keys dropped", H, "json.dumps(raw_dict, sort_keys=True)", "json.dumps(raw_dict)")
+m("hash: sort_keys dropped", H, "json.dumps(_numbers_as_float(raw_dict), sort_keys=True)", "json.dumps(_numbers_as_float(raw_dict))")
 m("hash: row labels hashed again", H, "hash_pandas_object(data, index=False)", "hash_pandas_object(data)")
 m("hash: builtin hash() of the text", H, "    return md_hasher.hexdigest()", "    return str(hash(json.dumps(raw_dict, sort_keys=True)))")
 m("hash: rounding dropped", H, "data = isotherm.data_raw.round(8)", "data = isotherm.data_raw")
@@ -13,6 +13,6 @@ m("cache field no longer reserved", P, "        'l_interpolator',\n", "")
 m("unit label reserved (excluded from identity)", B, "        \"_temperature\",\n        \"m\",", "        \"_temperature\",\n        \"pressure_unit\",\n        \"m\",")
 m("eq compares materials only", B, "return self.iso_id == other_isotherm.iso_id", "return str(self.material) == str(other_isotherm.material)")
 m("EQ reserved list reordered", B, "        \"_material\",\n        \"_adsorbate\",", "        \"_adsorbate\",\n        \"_material\",", expect="silent")
-m("EQ hash dict serialised in two steps", H, "    md_hasher = hashlib.md5(json.dumps(raw_dict, sort_keys=True).encode('utf-8'))", "    text = json.dumps(raw_dict, sort_keys=True)\n    md_hasher = hashlib.md5(text.encode('utf-8'))", expect="silent")
+m("EQ hash dict serialised in two steps", H, "    md_hasher = hashlib.md5(json.dumps(_numbers_as_float(raw_dict), sort_keys=True).encode('utf-8'))", "    text = json.dumps(_numbers_as_float(raw_dict), sort_keys=True)\n    md_hasher = hashlib.md5(text.encode('utf-8'))", expect="silent")
 json.dump(E, open("/verif/pgverif/selftest_catalogue/C05.json","w"), indent=1)
 print(len(E))
